@@ -606,8 +606,7 @@ static int family_rp(Choice& c, Report& rep) {
       if (pkt_end[(size_t)pe] > e && pkt_start[(size_t)pe] >= b) for (int f = e; f < pkt_end[(size_t)pe]; f++) if (!gext[(size_t)f].empty()) f3 = true;
     }
     if (f3) {
-      rep.label("rp:f3-class");
-      if (rep.exclude("F3")) continue;
+      rep.label("rp:f3-class");   // fixed finding F3 (repo commit e18ed156): checked like every other range
     }
     // optional caller-supplied extensions (disjoint id classes so both groups can be told apart)
     ExtList extra;
